@@ -29,7 +29,7 @@ REQUIRED_FEATURES = ["path:api", "path:sanitize_pixels", "path:cli-cload-pairs",
 
 def plan(tier, seed):
     n = 16 if tier == "quick" else 48
-    per = 40 if tier == "quick" else 120
+    per = 40 if tier == "quick" else 400
     return [{"kind": "bin", "sub": i, "cases": per} for i in range(n)]
 
 
